@@ -1,5 +1,6 @@
 #!/bin/bash
 # usage: run_seed.sh <seed dir> <property id>   -- applies the seeded change to /repo, runs the check, reverts
+export VERIF_EVIDENCE_DIR=$(mktemp -d); trap 'rm -rf "$VERIF_EVIDENCE_DIR"' EXIT
 seed=$(realpath "$1"); prop=$2
 cd /repo && [ -z "$(git status --porcelain)" ] || { echo "REFUSING: /repo has uncommitted changes (commit the hooks first)"; exit 3; }
 git apply "$seed/patch.diff" || { echo "cannot apply"; exit 3; }
